@@ -61,12 +61,16 @@ def fields_equal(a: Dict[str, Any], b: Dict[str, Any]) -> Optional[str]:
         return "cells %s != %s" % (a["cells"], b["cells"])
     if [norm(x) for x in a["idx"]] != [norm(x) for x in b["idx"]]:
         return "index %s != %s" % (a["idx"], b["idx"])
+    if "idxpd" in a and "idxpd" in b and a["idxpd"] != b["idxpd"]:
+        return "index dtype %s != %s" % (a["idxpd"], b["idxpd"])
     return None
 
 
 def frames_equal(a: Dict[str, Any], b: Dict[str, Any], dtypes: bool = True) -> Optional[str]:
     if [norm(x) for x in a["idx"]] != [norm(x) for x in b["idx"]]:
         return "index %s != %s" % (a["idx"], b["idx"])
+    if dtypes and "idxpd" in a and "idxpd" in b and a["idxpd"] != b["idxpd"]:
+        return "index dtype %s != %s" % (a["idxpd"], b["idxpd"])
     if len(a["cols"]) != len(b["cols"]):
         return "columns %s != %s" % ([c["name"] for c in a["cols"]], [c["name"] for c in b["cols"]])
     for ca, cb in zip(a["cols"], b["cols"]):
